@@ -247,6 +247,10 @@ func c16FlowControl(c *Check) {
 		}
 		c.Result(okSnap, "C16.S", "IsPaused in StateSnapshot", fnName(isPaused), p.Pos(isPaused.Pos()), "constant true while a snapshot is pending", "")
 	}
+	// a peer leaves StateSnapshot only on a snapshot report or a catching-up acknowledgement
+	c16SnapshotExit(c)
+	// the configured limits reach every inflight window
+	c16Limits(c)
 	// --- C16.U: uncommitted size
 	c16Uncommitted(c)
 }
@@ -488,6 +492,115 @@ func c16Uncommitted(c *Check) {
 				}
 			}
 			c.Result(ok, "C16.U", "dropped proposal is reported", fnName(stepLeader), p.site(ci), "!appendEntry(...) => return ErrProposalDropped", "")
+		}
+	}
+}
+
+
+func c16SnapshotExit(c *Check) {
+	p := c.P
+	stateF := p.Field("tracker", "Progress", "State")
+	snapshotSt := p.ConstVal("tracker", "StateSnapshot")
+	getType := p.Method("raftpb", "Message", "GetType")
+	stepLeader := p.Func("raft", "stepLeader")
+	becomeLeader := p.Method("raft", "raft", "becomeLeader")
+	snapStatus := p.ConstVal("raftpb", "MsgSnapStatus")
+	appResp := p.ConstVal("raftpb", "MsgAppResp")
+	n := 0
+	for _, name := range []string{"BecomeProbe", "BecomeReplicate"} {
+		fn := p.Method("tracker", "Progress", name)
+		if fn == nil {
+			continue
+		}
+		for _, cs := range p.CallsTo(fn) {
+			if fnPkg(cs.Caller).Path() != pkgPaths["raft"] {
+				continue
+			}
+			n++
+			fi := p.Info(cs.Caller)
+			site := p.site(cs.Instr)
+			pr := fi.Sym(callArgs(cs.Instr)[0])
+			if cs.Caller == becomeLeader {
+				c.Ok("C16.S", "state change of the leader's own progress", fnName(cs.Caller), site, "fresh progress after reset", "")
+				continue
+			}
+			notSnap := bfNot(bfCmp(FieldOf(pr, stateF), "==", constSym(snapshotSt)))
+			spec := notSnap
+			if cs.Caller == stepLeader {
+				m := fi.Sym(stepLeader.Params[1])
+				typeIs := func(t int64) *BF { return bfCmp(CallSym(getType, m), "==", constSym(t)) }
+				// allowed exits: the snapshot status report, and a MsgAppResp (the catching-up arm tests Match+1 >= firstIndex itself)
+				spec = bfOr(notSnap, typeIs(snapStatus), typeIs(appResp))
+			}
+			ok, und, detail := fi.pathsImplyOpt(cs.Instr, -1, spec, true)
+			req := "a peer in StateSnapshot is moved to another state only by MsgSnapStatus or an acknowledging MsgAppResp"
+			if und {
+				c.Undecided("C16.S", "call "+name, fnName(cs.Caller), site, req, detail)
+			} else {
+				c.Result(ok, "C16.S", "call "+name, fnName(cs.Caller), site, req, detail)
+			}
+		}
+	}
+	c.Result(n >= 6, "C16.S", "progress state transitions in raft", "-", "-", "call sites enumerated", fmt.Sprint(n))
+	// the MsgAppResp exit from StateSnapshot requires Match+1 >= firstIndex()
+	if stepLeader != nil {
+		fi := p.Info(stepLeader)
+		m := fi.Sym(stepLeader.Params[1])
+		becomeProbe := p.Method("tracker", "Progress", "BecomeProbe")
+		firstIndex := p.Method("raft", "raftLog", "firstIndex")
+		for _, ci := range p.CallsIn(stepLeader, becomeProbe) {
+			f := fi.FactsAt(ci)
+			if f.EnumFact(CallSym(getType, m), appResp) != 1 {
+				continue
+			}
+			pr := fi.Sym(callArgs(ci)[0])
+			tested := &Facts{FI: fi, Atoms: f.Tested}
+			if tested.EnumFact(FieldOf(pr, stateF), snapshotSt) != 1 {
+				continue
+			}
+			okG := false
+			for _, a := range tested.Atoms {
+				if a.K == ALe {
+					for _, s := range a.L.S {
+						if s.K == KCall && s.Fn == firstIndex {
+							okG = true
+						}
+					}
+				}
+			}
+			c.Result(okG, "C16.S", "acknowledgement exit from StateSnapshot", fnName(stepLeader), p.site(ci), "only when pr.Match+1 >= firstIndex() (the follower can be served from the log again)", strings.Join(f.Describe(), "; "))
+		}
+	}
+}
+
+func c16Limits(c *Check) {
+	p := c.P
+	mk := p.Func("tracker", "MakeProgressTracker")
+	newInfl := p.Func("tracker", "NewInflights")
+	okName := func(s *Sym, names ...string) bool {
+		if s.K != KField {
+			return false
+		}
+		for _, n := range names {
+			if s.Fld.Name() == n {
+				return true
+			}
+		}
+		return false
+	}
+	for _, fn := range []*ssa.Function{mk, newInfl} {
+		if fn == nil {
+			continue
+		}
+		for _, cs := range p.CallsTo(fn) {
+			if cs.Caller == mk {
+				continue
+			}
+			fi := p.Info(cs.Caller)
+			a := callArgs(cs.Instr)
+			a0, a1 := fi.Sym(a[0]), fi.Sym(a[1])
+			ok := okName(a0, "MaxInflight", "MaxInflightMsgs") && okName(a1, "MaxInflightBytes")
+			c.Result(ok, "C16.I", "limits passed to "+fn.Name(), fnName(cs.Caller), p.site(cs.Instr), "(MaxInflight[Msgs], MaxInflightBytes) taken from the Config or the current tracker", fmt.Sprintf("(%s, %s)", sanitizeKey(a0.Key()), sanitizeKey(a1.Key())))
 		}
 	}
 }
